@@ -1151,41 +1151,44 @@ type pres =
 let words_init =
   repeat None (S (S (S (S (S (S (S (S O))))))))
 
+(** val start6 : n list -> n list option **)
+
+let start6 a = match a with
+| [] -> Some a
+| c0 :: r ->
+  if N.eqb c0 ch_colon
+  then (match r with
+        | [] -> None
+        | c1 :: _ -> if N.eqb c1 ch_colon then Some r else None)
+  else Some a
+
+(** val finish : bool -> z -> z -> words -> pres **)
+
+let finish strict i hfil ws =
+  if (&&) ((&&) strict (Z.ltb hfil Z0)) (Z.ltb i (Zpos (XO (XO (XO XH)))))
+  then PErr
+  else if Z.leb Z0 hfil
+       then (match fill_move (S (S (S (S (S (S (S (S (S O))))))))) (Zpos (XI
+                     (XI XH))) (Z.sub (Zpos (XO (XO (XO XH)))) i) hfil ws with
+             | Some p ->
+               let (i', ws1) = p in
+               (match fill_zero (S (S (S (S (S (S (S (S (S O))))))))) i' hfil
+                        ws1 with
+                | Some ws2 -> POk ws2
+                | None -> PStuck)
+             | None -> PStuck)
+       else POk ws
+
 (** val str_to_ipv6_gen : bool -> n list -> pres **)
 
 let str_to_ipv6_gen strict a =
-  let start =
-    match a with
-    | [] -> Some a
-    | c0 :: r ->
-      if N.eqb c0 ch_colon
-      then (match r with
-            | [] -> None
-            | c1 :: _ -> if N.eqb c1 ch_colon then Some r else None)
-      else Some a
-  in
-  (match start with
-   | Some a' ->
-     (match group_loop (S (S (length a'))) a' Z0 (Zneg XH) words_init with
-      | LErr -> PErr
-      | LStuck -> PStuck
-      | LDone (i, hfil, ws) ->
-        if (&&) ((&&) strict (Z.ltb hfil Z0))
-             (Z.ltb i (Zpos (XO (XO (XO XH)))))
-        then PErr
-        else if Z.leb Z0 hfil
-             then (match fill_move (S (S (S (S (S (S (S (S (S O)))))))))
-                           (Zpos (XI (XI XH)))
-                           (Z.sub (Zpos (XO (XO (XO XH)))) i) hfil ws with
-                   | Some p ->
-                     let (i', ws1) = p in
-                     (match fill_zero (S (S (S (S (S (S (S (S (S O)))))))))
-                              i' hfil ws1 with
-                      | Some ws2 -> POk ws2
-                      | None -> PStuck)
-                   | None -> PStuck)
-             else POk ws)
-   | None -> PErr)
+  match start6 a with
+  | Some a' ->
+    (match group_loop (S (length a')) a' Z0 (Zneg XH) words_init with
+     | LErr -> PErr
+     | LStuck -> PStuck
+     | LDone (i, hfil, ws) -> finish strict i hfil ws)
+  | None -> PErr
 
 type ipres =
 | IErr
